@@ -39,41 +39,81 @@ def _deletions(f: Func) -> list[tuple[ast.AST, ast.AST]]:
     return out
 
 
-def _key_origin(f: Func, key: ast.AST) -> tuple[str, str]:
-    """Classify where the deleted keys come from: ('pole'|'gate'|'inlined-decider'|'other', evidence)."""
+def _key_origin(f: Func, key: ast.AST, at: ast.AST | None = None) -> tuple[str, str]:
+    """Classify where the deleted keys come from: ('pole'|'gate'|'inlined-decider'|'other', evidence).
+    Every contribution to the key (list definitions, appends, loop iterables) must be compiler-owned."""
     du = DefUse(f)
     pm = parents_map(f.node)
-    texts = []
-    # follow the key variable to the list it iterates and to the appends that fill that list
+    kinds: set[str] = set()
+    evidence: list[str] = []
     seen: set[str] = set()
-    work = [key]
-    appends: list[ast.Call] = []
-    while work:
-        e = work.pop()
-        for n in ast.walk(e):
-            if isinstance(n, ast.Name) and n.id not in seen:
-                seen.add(n.id)
-                for v, how, _st in du.defs.get(n.id, []):
-                    work.append(v)
-                    texts.append(norm(v))
-                for c in calls_in(f.node, "append"):
-                    if isinstance(c.func, ast.Attribute) and isinstance(c.func.value, ast.Name) and c.func.value.id == n.id:
-                        appends.append(c)
-                        work.append(c.args[0])
-    blob = " ".join(texts + [norm(c) for c in appends] + [norm(key)])
-    guards = []
-    for c in appends:
-        st = c
+
+    def guards_of(node: ast.AST) -> list[tuple[str, bool]]:
+        st = node
         while not isinstance(st, ast.stmt):
             st = pm[st]
-        guards += [(norm(t), pol) for t, pol in guard_chain(f, st, pm)]
-    if any("is_power_pole" in g and ((pol and not g.startswith("not ")) or ((not pol) and g.startswith("not "))) for g, pol in guards):
-        return "pole", "ids appended only under the is_power_pole flag"
-    if ("write_gate" in blob or "hold_gate" in blob) and any("_unused" in g for g, _ in guards):
-        return "gate", "ids are memory gates flagged *_gate_unused"
-    if "source_node_id_to_remove" in blob:
-        return "inlined-decider", "ids come from comparison_data['source_node_id_to_remove']"
-    return "other", f"keys derive from: {blob[:160]}"
+        return [(norm(t), pol) for t, pol in guard_chain(f, st, pm)]
+
+    def classify_value(e: ast.AST, gs: list[tuple[str, bool]]) -> None:
+        txt = norm(e)
+        if any("is_power_pole" in g and ((pol and not g.startswith("not ")) or ((not pol) and g.startswith("not "))) for g, pol in gs):
+            kinds.add("pole")
+            evidence.append("ids appended only under the is_power_pole flag")
+        elif ("write_gate" in txt or "hold_gate" in txt) and any("_unused" in g and pol for g, pol in gs):
+            kinds.add("gate")
+            evidence.append("ids are memory gates flagged *_gate_unused")
+        elif "source_node_id_to_remove" in txt or any("source_node_id_to_remove" in norm(v) for x in ast.walk(e) if isinstance(x, ast.Name) for v in du.value_exprs(x.id)):
+            kinds.add("inlined-decider")
+            evidence.append("ids come from comparison_data['source_node_id_to_remove']")
+        else:
+            kinds.add("other")
+            evidence.append(f"`{txt[:70]}`")
+
+    def origins(e: ast.AST) -> None:
+        if isinstance(e, ast.Name):
+            if e.id in seen:
+                return
+            seen.add(e.id)
+            for v, how, _st in du.defs.get(e.id, []):
+                if how.startswith("elem") and how != "elem-add":
+                    origins(v)  # loop variable: where does the iterable come from
+                elif how == "elem-add":
+                    continue  # appends are handled with their guards below
+                elif isinstance(v, (ast.List, ast.Set, ast.Tuple)) and not v.elts:
+                    continue
+                else:
+                    origins(v)
+            for c in calls_in(f.node, "append"):
+                if isinstance(c.func, ast.Attribute) and isinstance(c.func.value, ast.Name) and c.func.value.id == e.id:
+                    classify_value(c.args[0], guards_of(c))
+            return
+        if isinstance(e, ast.BinOp) and isinstance(e.op, ast.Add):
+            origins(e.left)
+            origins(e.right)
+            return
+        if isinstance(e, ast.Call) and call_name(e) in ("list", "sorted", "set", "tuple") and len(e.args) == 1:
+            origins(e.args[0])
+            return
+        if isinstance(e, ast.Constant):
+            return
+        classify_value(e, [])
+
+    start: ast.AST = key
+    if at is not None and isinstance(key, ast.Name):
+        # the loop that lexically encloses the deletion and binds the key decides where the key comes from
+        cur = at
+        while cur in pm:
+            cur = pm[cur]
+            if isinstance(cur, ast.For) and any(isinstance(x, ast.Name) and x.id == key.id for x in ast.walk(cur.target)):
+                seen.add(key.id)
+                start = cur.iter
+                break
+    origins(start)
+    if not kinds:
+        return "other", f"origin of `{norm(key)}` not recognised"
+    if "other" in kinds:
+        return "other", "keys also derive from: " + "; ".join(x for x in evidence if x.startswith("`"))
+    return sorted(kinds)[0], "; ".join(sorted(set(evidence)))
 
 
 def run(repo: Repo, rep: Report, tier: str) -> None:
@@ -229,7 +269,7 @@ def run(repo: Repo, rep: Report, tier: str) -> None:
             continue
         for st, key in _deletions(f):
             n_del += 1
-            kind, ev = _key_origin(f, key)
+            kind, ev = _key_origin(f, key, st)
             rep.check(kind != "other", "C09-R4", f"{f.short} deletes only compiler-owned placements ({norm(st)[:50]})", f"{kind}: {ev}", f.loc(st))
     rep.floor("C09-R4", "deletion sites of placements", n_del, 3)
     # fixture: the matcher must still recognise a forbidden deletion
@@ -239,7 +279,7 @@ def run(repo: Repo, rep: Report, tier: str) -> None:
     cls = tree.body[0]
     fn = Func("drop", cls.body[0], fmod)
     dels = _deletions(fn)
-    if not dels or _key_origin(fn, dels[0][1])[0] != "other":
+    if not dels or _key_origin(fn, dels[0][1], dels[0][0])[0] != "other":
         raise AnalysisError("C09-R4: positive fixture no longer matches; the who-may-delete matcher is broken")
     rep.ok("C09-R4", "fixture: a forbidden deletion is recognised by the matcher", "fixtures/c09_forbidden_delete.py flagged", "fixtures/c09_forbidden_delete.py:5", nontrivial=False)
     ids = calls_in(el.methods["_lower_place_core"].node, "next_id")
